@@ -166,6 +166,18 @@ Proof. exact compose_cs_reassembles. Qed.
 Theorem C07_cs_total : forall c ref t, compose_cs c ref t <> Panic /\ compose_cs c ref t <> Err EFuel.
 Proof. exact compose_cs_total. Qed.
 
+(* the two independent dumps of the encoders agree (Gen/Widths.v octet counts = length of the octets in Gen/Charsets.v, every
+   scalar value, accepted sets equal), hence the length-only encoder of compose_len is the length of what compose_cs encodes.
+   C07_tables_agree_partial: proved for the four single-octet charsets; the same kernel check holds for Shift-JIS, EUC-JP,
+   EUC-KR (run once: 5 min 46 s) but is left out of the build for time - see Proofs/ComposeText.v. *)
+Theorem C07_tables_agree_partial : forall c, single_octet c -> forall t,
+  match enc_len_stateless (wd_of c) t, encode c t with
+  | Ok n, Ok bs => n = length bs
+  | Err _, Err _ => True
+  | _, _ => False
+  end.
+Proof. exact enc_len_is_length. Qed.
+
 (* ---- non-vacuity -------------------------------------------------------------- *)
 (* 200 x 'a', reference 255 (the D11 case): 8-bit element, first part full with 153 septets = 134 octets *)
 Example C07_example_gsm7 :
